@@ -69,6 +69,14 @@ def cmdValidateOut (payload : String) : String :=
   | some p => vresText (validateOutbound p)
   | none => "res=bad-request"
 
+def parsePad (kv : Kv) : Option (Nat × Nat) :=
+  match kv.get "padsubs" with
+  | some spec =>
+    (match spec.splitOn "x" with
+     | [a, b] => (match a.toNat?, b.toNat? with | some n, some l => some (n, l) | _, _ => none)
+     | _ => none)
+  | none => none
+
 def cmdValidateOutInt (head payload : String) : String :=
   let (_, kv) := splitKv head
   match parsePacket payload, settingsOf kv, kv.num "csei", resolutionOf kv with
@@ -80,8 +88,36 @@ def cmdValidateOutInt (head payload : String) : String :=
      | .publish pb, some (some n) =>
        let base := publishLengths5 { pb with payload := none } (res.getD {})
        vresText (vPublishInternalWith (base.map (fun l => (l.1 + n, l.2))) pb (some s))
-     | _, _ => vresText (validateOutboundInternal p (some s) (csei.getD 0) res))
+     | _, _ =>
+       -- `padsubs=<n>x<len>`: n more subscriptions / topic filters of len bytes that are never materialised
+       -- (`vSubscribeInternal_pad`, `vUnsubscribeInternal_pad` in Proofs/Validate.lean)
+       (match p, parsePad kv with
+        | .subscribe sp, some (n, len) =>
+          if n = 0 then vresText (validateOutboundInternal p (some s) (csei.getD 0) res)
+          else vresText (vSubscribeInternalWith ((subscribeLengths5 sp).map (fun l => (l.1 + n * (3 + len), l.2)))
+                 { sp with subscriptions := sp.subscriptions ++ [padSub len] } (some s))
+        | .unsubscribe up, some (n, len) =>
+          if n = 0 then vresText (validateOutboundInternal p (some s) (csei.getD 0) res)
+          else vresText (vUnsubscribeInternalWith ((unsubscribeLengths5 up).map (fun l => (l.1 + n * (2 + len), l.2)))
+                 { up with topicFilters := up.topicFilters ++ [List.replicate len 97] } (some s))
+        | _, _ => vresText (validateOutboundInternal p (some s) (csei.getD 0) res)))
   | _, _, _, _ => "res=bad-request"
+
+/-- `encode.head v=.. [padsubs=<n>x<len>] | <packet>`: the fixed header (first byte, remaining length) of a SUBSCRIBE /
+    UNSUBSCRIBE with n more subscriptions / filters of len bytes (`subscribeLengths5_pad` and its three siblings) -/
+def cmdEncodeHead (head payload : String) : String :=
+  let (_, kv) := splitKv head
+  let (n, len) := (parsePad kv).getD (0, 0)
+  let hdr (first : Nat) (rl : Option Nat) : String :=
+    match rl.bind encodeVli with
+    | some bs => s!"res=ok hdr={hexOf (GV.u8 first :: bs)}"
+    | none => "res=err:EncodingFailure"
+  match parsePacket payload, versionOf kv with
+  | some (.subscribe sp), some .v5 => hdr 130 ((subscribeLengths5 sp).map (fun l => l.1 + n * (3 + len)))
+  | some (.subscribe sp), some .v311 => hdr 130 (some (subscribeLength311 sp + n * (3 + len)))
+  | some (.unsubscribe up), some .v5 => hdr 162 ((unsubscribeLengths5 up).map (fun l => l.1 + n * (2 + len)))
+  | some (.unsubscribe up), some .v311 => hdr 162 (some (unsubscribeLength311 up + n * (2 + len)))
+  | _, _ => "res=unmodelled"
 
 def cmdValidateIn (payload : String) : String :=
   match parsePacket payload with
@@ -170,6 +206,7 @@ def dispatch (st : Session) (line : String) : Session × String :=
   let (verb, head, payload) := splitRequest line
   match verb with
   | "encode" => (st, cmdEncode head payload)
+  | "encode.head" => (st, cmdEncodeHead head payload)
   | "decode" => (st, cmdDecode head)
   | "vli.size" => (st, cmdVliSize head)
   | "vli.dec" => (st, cmdVliDec head)
